@@ -513,6 +513,7 @@ structure AppendOK (m : Mem) (sl : List BS) (wi : Nat) (s : BS) (d : List Nat) (
   data0 : k = 0 → ∀ j, (m1.slot j).data = (m.slot j).data
   slot : s1.slot = s.slot
   hdr : ∀ j, (m1.slot j).hdr = (m.slot j).hdr
+  frame : ∀ j, s.slot ≠ some j → (m1.slot j).data = (m.slot j).data
 
 theorem unread_write (l : List Nat) (ri wi k : Nat) (c : List Nat) (h1 : ri ≤ wi) (h2 : wi + k ≤ l.length) (hc : c.length = k) :
     ((writeAt l wi c).drop ri).take (wi + k - ri) = (l.drop ri).take (wi - ri) ++ c := by
@@ -543,7 +544,7 @@ theorem append_spec (m : Mem) (sl : List BS) (wi : Nat) (s : BS) (d : List Nat) 
       · subst ht
         have := hi.snd s hmem
         rw [e1, e2, e3]; exact this
-    refine ⟨rfl, hw, ⟨?_, ?_, ?_, ?_, hsnd _ rfl rfl rfl, by rw [hfm]; exact hi.hn⟩, rfl, ?_, fun j t _ _ => rfl, rfl, rfl, rfl, rfl, fun _ _ => rfl, hs.symm, fun _ => rfl⟩
+    refine ⟨rfl, hw, ⟨?_, ?_, ?_, ?_, hsnd _ rfl rfl rfl, by rw [hfm]; exact hi.hn⟩, rfl, ?_, fun j t _ _ => rfl, rfl, rfl, rfl, rfl, fun _ _ => rfl, hs.symm, fun _ => rfl, fun _ _ => rfl⟩
     · intro t ht
       rcases mem_or_eq_of_mem_set ht with ht | ht
       · exact hi.ok t ht
@@ -601,7 +602,7 @@ theorem append_spec (m : Mem) (sl : List BS) (wi : Nat) (s : BS) (d : List Nat) 
       by_cases e : j = i
       · subst e; rw [hself]
       · rw [hother j e]
-    refine ⟨rfl, ?_, ⟨?_, ?_, ?_, ?_, hsnd _ rfl rfl rfl, by rw [hfm]; intro j hj; rw [hhdr j]; exact hi.hn j hj⟩, rfl, ?_, ?_, rfl, rfl, rfl, by simp [Mem.setSlot], ?_, hs.symm, hhdr⟩
+    refine ⟨rfl, ?_, ⟨?_, ?_, ?_, ?_, hsnd _ rfl rfl rfl, by rw [hfm]; intro j hj; rw [hhdr j]; exact hi.hn j hj⟩, rfl, ?_, ?_, rfl, rfl, rfl, by simp [Mem.setSlot], ?_, hs.symm, hhdr, fun j hj => by rw [hother j (fun e => hj (by rw [hs, e]))]⟩
     · -- Mem.WF
       refine ⟨?_, ?_, hw.freeNodup, ?_, ?_⟩
       · intro j hj
@@ -677,6 +678,28 @@ theorem tail_content_nil {m : Mem} {l : LBuf} {wi : Nat} (h : WInv m l wi) (m' :
     rw [← e, ← getElem?_eq_getElem hj, getElem?_drop]
   exact (h.tail (wi + 1 + j) t (by omega) this).1
 
+/-- what a writer call may touch: payload of its own slices and of slots it takes from the free lists, nothing else -/
+structure Frame (m : Mem) (l : LBuf) (m' : Mem) (l' : LBuf) : Prop where
+  data : ∀ p, p ∉ l.sl.filterMap (·.slot) → p ∉ m.free.flatten → (m'.slot p).data = (m.slot p).data
+  origin : ∀ i ∈ l'.sl.filterMap (·.slot), i ∈ l.sl.filterMap (·.slot) ∨ i ∈ m.free.flatten
+  sub : ∀ i, i ∈ m'.free.flatten → i ∈ m.free.flatten
+
+theorem Frame.refl (m : Mem) (l : LBuf) : Frame m l m l := ⟨fun _ _ _ => rfl, fun _ h => Or.inl h, fun _ h => h⟩
+
+theorem Frame.trans {m m1 m2 : Mem} {l l1 l2 : LBuf} (a : Frame m l m1 l1) (b : Frame m1 l1 m2 l2) : Frame m l m2 l2 := by
+  refine ⟨?_, ?_, fun i hi => a.sub i (b.sub i hi)⟩
+  · intro p h1 h2
+    have hp1 : p ∉ l1.sl.filterMap (·.slot) := by
+      intro hh
+      rcases a.origin p hh with h | h
+      · exact h1 h
+      · exact h2 h
+    rw [b.data p hp1 (fun hh => h2 (a.sub p hh)), a.data p h1 h2]
+  · intro i hi
+    rcases b.origin i hi with h | h
+    · exact a.origin i h
+    · exact Or.inr (a.sub i h)
+
 theorem shm_set {sl : List BS} {wi : Nat} {s s1 : BS} (hs : sl[wi]? = some s) (e : s1.slot = s.slot)
     (h : ∀ t ∈ sl, t.slot.isSome = true) : ∀ t ∈ sl.set wi s1, t.slot.isSome = true := by
   intro t ht
@@ -701,6 +724,31 @@ theorem full_step {sl : List BS} {wi : Nat} {s s1 : BS} (hs : sl[wi]? = some s)
     cases ht; exact h1
   · rw [getElem?_set_ne (fun h => e h.symm)] at ht
     exact hfull j t (by omega) ht
+
+theorem frame_append {m : Mem} {l l' : LBuf} {wi : Nat} {s : BS} {d : List Nat} {m1 : Mem} {s1 : BS} {k : Nat}
+    (hs : l.sl[wi]? = some s) (A : AppendOK m l.sl wi s d m1 s1 k) (hl' : l'.sl = l.sl.set wi s1) : Frame m l m1 l' := by
+  have hfm := filterMap_set_same (fun x : BS => x.slot) l.sl wi s s1 hs A.slot
+  refine ⟨?_, ?_, fun i hi => by rw [A.free] at hi; exact hi⟩
+  · intro p h1 _
+    apply A.frame
+    intro e
+    exact h1 (mem_filterMap.mpr ⟨s, mem_of_getElem? hs, e⟩)
+  · intro i hi
+    rw [hl', hfm] at hi
+    exact Or.inl hi
+
+theorem frame_lalloc {m m' : Mem} {l l' : LBuf} {new : List BS} {size : Nat} (a : LAlloc m l m' l' new size) : Frame m l m' l' := by
+  refine ⟨fun p _ _ => a.data p, ?_, a.sub⟩
+  intro i hi
+  rw [a.sl, filterMap_append] at hi
+  rcases mem_append.mp hi with hi | hi
+  · exact Or.inl hi
+  · simp only [mem_filterMap] at hi
+    obtain ⟨b, hb, eb⟩ := hi
+    exact Or.inr ((a.fresh b hb).own i eb).1
+
+theorem frame_congr {m m' : Mem} {l k l' k' : LBuf} (h : Frame m l m' l') (e : k.sl = l.sl) (e' : k'.sl = l'.sl) : Frame m k m' k' :=
+  ⟨fun p h1 h2 => h.data p (by rw [← e]; exact h1) h2, fun i hi => by rw [e]; exact h.origin i (by rw [← e']; exact hi), h.sub⟩
 
 def rooms (sl : List BS) (wi : Nat) : List Nat := (sl.drop wi).map (fun s => s.cap - s.wi)
 
@@ -736,7 +784,7 @@ theorem go_spec : ∀ (fuel : Nat) (m : Mem) (l : LBuf) (wi : Nat) (d : List Nat
     Needed l.sl wi d.length →
     ∃ m' l' wi', LBuf.writeBytes.go fuel m l d n = some (m', l') ∧ m'.WF ∧ WInv m' l' wi' ∧
       content m' l'.sl = content m l.sl ++ d ∧ l'.len = l.len + n + d.length ∧ wi' + 1 = l'.sl.length ∧
-      (∀ t, l'.sl[wi']? = some t → t.ri < t.wi) := by
+      (∀ t, l'.sl[wi']? = some t → t.ri < t.wi) ∧ Frame m l m' l' := by
   intro fuel
   induction fuel with
   | zero =>
@@ -782,7 +830,7 @@ theorem go_spec : ∀ (fuel : Nat) (m : Mem) (l : LBuf) (wi : Nat) (d : List Nat
       have hs1 : s1.ri < s1.wi := by
         have := (hi.sl.ok s (mem_of_getElem? hs)).1
         rw [A.ri, A.wi']; omega
-      refine ⟨m1, _, wi, rfl, A.wf, ⟨A.inv, hi.w, by simpa [LBuf.setAt] using hl, ?_, ?_, ?_⟩, ?_, ?_, ?_, ?_⟩
+      refine ⟨m1, _, wi, rfl, A.wf, ⟨A.inv, hi.w, by simpa [LBuf.setAt] using hl, ?_, ?_, ?_⟩, ?_, ?_, ?_, ?_, frame_append hs A rfl⟩
       · intro j t hj ht
         simp only [LBuf.setAt] at ht
         rw [getElem?_set_ne (by omega)] at ht
@@ -835,10 +883,11 @@ theorem go_spec : ∀ (fuel : Nat) (m : Mem) (l : LBuf) (wi : Nat) (d : List Nat
       have key : ∃ m2 l2, (if wi + 1 < (l.setAt wi s1).sl.length then (m1, l.setAt wi s1) else (l.setAt wi s1).alloc m1 (d.drop k).length) = (m2, l2) ∧
           m2.WF ∧ wi + 1 < l2.sl.length ∧ WInv m2 { l2 with w := some (wi + 1) } (wi + 1) ∧
           content m2 l2.sl = content m1 (l.sl.set wi s1) ∧ l2.len = l.len ∧
-          (∀ t, l2.sl[wi + 1]? = some t → t.wi < t.cap) ∧ Needed l2.sl (wi + 1) (d.drop k).length := by
+          (∀ t, l2.sl[wi + 1]? = some t → t.wi < t.cap) ∧ Needed l2.sl (wi + 1) (d.drop k).length ∧
+          Frame m1 (l.setAt wi s1) m2 l2 := by
         by_cases hnext : wi + 1 < (l.setAt wi s1).sl.length
         · rw [if_pos hnext]
-          refine ⟨m1, l.setAt wi s1, rfl, A.wf, hnext, ⟨A.inv, rfl, hnext, ?_, ?_, ?_⟩, rfl, rfl, ?_, ?_⟩
+          refine ⟨m1, l.setAt wi s1, rfl, A.wf, hnext, ⟨A.inv, rfl, hnext, ?_, ?_, ?_⟩, rfl, rfl, ?_, ?_, Frame.refl _ _⟩
           · intro j t hj ht
             simp only [LBuf.setAt] at ht
             rw [getElem?_set_ne (by omega)] at ht
@@ -872,7 +921,7 @@ theorem go_spec : ∀ (fuel : Nat) (m : Mem) (l : LBuf) (wi : Nat) (d : List Nat
           have hlen2 : wi + 1 < l2.sl.length := by
             rw [hsl2, length_append, length_set]; omega
           have hwi1 : l.sl.length = wi + 1 := by rw [hl1] at hnext; omega
-          refine ⟨m2, l2, rfl, a.wf, hlen2, ⟨?_, rfl, hlen2, ?_, ?_, ?_⟩, ?_, a.len, ?_, ?_⟩
+          refine ⟨m2, l2, rfl, a.wf, hlen2, ⟨?_, rfl, hlen2, ?_, ?_, ?_⟩, ?_, a.len, ?_, ?_, frame_lalloc a⟩
           · show SlInv m2 l2.sl
             rw [hsl2]
             exact slInv_lalloc A.wf A.inv a
@@ -914,7 +963,7 @@ theorem go_spec : ∀ (fuel : Nat) (m : Mem) (l : LBuf) (wi : Nat) (d : List Nat
             have h2 := a.tight
             rw [← map_dropLast] at h2
             omega
-      obtain ⟨m2, l2, hk2, hw2, hlt2, hinv2, hc2, hlen2, hroom2, hneed2⟩ := key
+      obtain ⟨m2, l2, hk2, hw2, hlt2, hinv2, hc2, hlen2, hroom2, hneed2, hfr2⟩ := key
       rw [hk2]
       simp only [hlt2, if_true]
       -- the slice the loop continues with is fresh
@@ -925,8 +974,9 @@ theorem go_spec : ∀ (fuel : Nat) (m : Mem) (l : LBuf) (wi : Nat) (d : List Nat
         exfalso
         have := hroom2 t ht
         omega
-      obtain ⟨m', l', wi', e, hw', hinv', hc', hlen', htight', hne'⟩ := ih m2 { l2 with w := some (wi + 1) } (wi + 1) (d.drop k) (n + k) hw2 hinv2 hdne hroom hneed2
-      refine ⟨m', l', wi', e, hw', hinv', ?_, ?_, htight', hne'⟩
+      obtain ⟨m', l', wi', e, hw', hinv', hc', hlen', htight', hne', hfr'⟩ := ih m2 { l2 with w := some (wi + 1) } (wi + 1) (d.drop k) (n + k) hw2 hinv2 hdne hroom hneed2
+      have hfr1 : Frame m l m1 (l.setAt wi s1) := frame_append hs A rfl
+      refine ⟨m', l', wi', e, hw', hinv', ?_, ?_, htight', hne', (hfr1.trans hfr2).trans (frame_congr hfr' rfl rfl)⟩
       · rw [hc']
         simp only
         rw [hc2, hc1, append_assoc, take_append_drop]
@@ -954,7 +1004,7 @@ theorem lalloc_one {m m' : Mem} {l l' : LBuf} {new : List BS} (a : LAlloc m l m'
 /-- the first allocation of an empty send buffer -/
 theorem first_alloc (m : Mem) (l : LBuf) (size : Nat) (hw : m.WF) (hs : 0 < size) (hl : l.sl = []) :
     ∃ m' l', l.alloc m size = (m', l') ∧ m'.WF ∧ l'.sl ≠ [] ∧ WInv m' { l' with w := some 0 } 0 ∧ content m' l'.sl = [] ∧ l'.len = l.len ∧
-      (∀ t, l'.sl[0]? = some t → t.wi < t.cap) ∧ Needed l'.sl 0 size ∧ (size = 1 → l'.sl.length = 1) := by
+      (∀ t, l'.sl[0]? = some t → t.wi < t.cap) ∧ Needed l'.sl 0 size ∧ (size = 1 → l'.sl.length = 1) ∧ Frame m l m' l' := by
   obtain ⟨new, a⟩ := lalloc_spec m l size hw hs
   rcases hal : l.alloc m size with ⟨m', l'⟩
   rw [hal] at a
@@ -969,7 +1019,7 @@ theorem first_alloc (m : Mem) (l : LBuf) (size : Nat) (hw : m.WF) (hs : 0 < size
     rw [← map_dropLast] at h2
     omega
   have hone : size = 1 → new.length = 1 := fun h1 => lalloc_one (h1 ▸ a)
-  refine ⟨m', l', rfl, a.wf, by rw [hsl]; exact a.ne, ⟨?_, rfl, by simp only; rw [hsl]; exact hpos, ?_, fun j t hj _ => absurd hj (by omega), ?_⟩, ?_, a.len, ?_, by rw [hsl]; exact hneed, by rw [hsl]; exact hone⟩
+  refine ⟨m', l', rfl, a.wf, by rw [hsl]; exact a.ne, ⟨?_, rfl, by simp only; rw [hsl]; exact hpos, ?_, fun j t hj _ => absurd hj (by omega), ?_⟩, ?_, a.len, ?_, by rw [hsl]; exact hneed, by rw [hsl]; exact hone, frame_lalloc a⟩
   · show SlInv m' l'.sl
     have := slInv_lalloc hw (by rw [hl]; exact slInv_nil m) a
     rw [hl, nil_append] at this
@@ -991,7 +1041,7 @@ theorem first_alloc (m : Mem) (l : LBuf) (size : Nat) (hw : m.WF) (hs : 0 < size
 
 theorem writeBytes_spec (m : Mem) (l : LBuf) (d : List Nat) (hw : m.WF) (hb : WBuf m l) (hd : d ≠ []) :
     ∃ m' l', l.writeBytes m d = some (m', l') ∧ m'.WF ∧ WBuf m' l' ∧
-      content m' l'.sl = content m l.sl ++ d ∧ l'.len = l.len + d.length := by
+      content m' l'.sl = content m l.sl ++ d ∧ l'.len = l.len + d.length ∧ Frame m l m' l' := by
   have hdpos : 0 < d.length := length_pos_iff.mpr hd
   have hne : d.isEmpty = false := by
     cases d with
@@ -1002,7 +1052,7 @@ theorem writeBytes_spec (m : Mem) (l : LBuf) (d : List Nat) (hw : m.WF) (hb : WB
   rcases hb with ⟨hwn, hsl⟩ | ⟨wi, hi, htight, _⟩
   · rw [hwn]
     simp only
-    obtain ⟨m1, l1, e, hw1, hne1, hinv, hc, hlen, hroom, hneed, _⟩ := first_alloc m l d.length hw hdpos hsl
+    obtain ⟨m1, l1, e, hw1, hne1, hinv, hc, hlen, hroom, hneed, _, hfr1⟩ := first_alloc m l d.length hw hdpos hsl
     rw [e]
     simp only
     have hemp : l1.sl.isEmpty = false := by
@@ -1011,9 +1061,9 @@ theorem writeBytes_spec (m : Mem) (l : LBuf) (d : List Nat) (hw : m.WF) (hb : WB
       | cons a r => rfl
     rw [hemp]
     simp only [Bool.false_eq_true, if_false]
-    obtain ⟨m', l', wi', e', hw', hinv', hc', hlen', ht', hn'⟩ := go_spec (d.length + 2) m1 { l1 with w := some 0 } 0 d 0 hw1 hinv hd
+    obtain ⟨m', l', wi', e', hw', hinv', hc', hlen', ht', hn', hfr'⟩ := go_spec (d.length + 2) m1 { l1 with w := some 0 } 0 d 0 hw1 hinv hd
       (fun t ht => ⟨fun _ => by omega, fun hge => by have := hroom t ht; omega⟩) hneed
-    refine ⟨m', l', e', hw', Or.inr ⟨wi', hinv', ht', hn'⟩, ?_, ?_⟩
+    refine ⟨m', l', e', hw', Or.inr ⟨wi', hinv', ht', hn'⟩, ?_, ?_, hfr1.trans (frame_congr hfr' rfl rfl)⟩
     · rw [hc']; simp only; rw [hc, hsl]; rfl
     · rw [hlen']; simp only; rw [hlen]; omega
   · rw [hi.w]
@@ -1024,9 +1074,9 @@ theorem writeBytes_spec (m : Mem) (l : LBuf) (d : List Nat) (hw : m.WF) (hb : WB
       rw [rooms_cons ht]
       have : rooms l.sl (wi + 1) = [] := by unfold rooms; rw [drop_eq_nil_of_le (by omega)]; rfl
       rw [this]; simpa using hdpos
-    obtain ⟨m', l', wi', e', hw', hinv', hc', hlen', ht', hn'⟩ := go_spec (d.length + 2) m l wi d 0 hw hi hd
+    obtain ⟨m', l', wi', e', hw', hinv', hc', hlen', ht', hn', hfr'⟩ := go_spec (d.length + 2) m l wi d 0 hw hi hd
       (fun t _ => ⟨fun _ => by omega, fun _ => by omega⟩) hneed
-    exact ⟨m', l', e', hw', Or.inr ⟨wi', hinv', ht', hn'⟩, hc', by rw [hlen']; omega⟩
+    exact ⟨m', l', e', hw', Or.inr ⟨wi', hinv', ht', hn'⟩, hc', by rw [hlen']; omega, hfr'⟩
 
 /-! ### WriteByte -/
 
@@ -1065,7 +1115,7 @@ theorem slInv_of_same {m m1 : Mem} {sl : List BS} (h : SlInv m sl) (hd : ∀ j, 
 theorem writeByte_some (m0 : Mem) (l0 : LBuf) (wi : Nat) (b : Nat) (hw0 : m0.WF) (hi0 : WInv m0 l0 wi)
     (htight : wi + 1 = l0.sl.length) :
     ∃ m' l', l0.writeByte m0 b = some (m', l') ∧ m'.WF ∧ WBuf m' l' ∧
-      content m' l'.sl = content m0 l0.sl ++ [b] ∧ l'.len = l0.len + 1 := by
+      content m' l'.sl = content m0 l0.sl ++ [b] ∧ l'.len = l0.len + 1 ∧ Frame m0 l0 m' l' := by
   unfold LBuf.writeByte
   rw [hi0.w]
   simp only
@@ -1085,7 +1135,7 @@ theorem writeByte_some (m0 : Mem) (l0 : LBuf) (wi : Nat) (b : Nat) (hw0 : m0.WF)
     have hs1 : ws1.ri < ws1.wi := by
       have := (hi0.sl.ok ws (mem_of_getElem? hws)).1
       rw [A.ri, A.wi']; omega
-    refine ⟨m1, _, rfl, A.wf, Or.inr ⟨wi, ⟨A.inv, hi0.w, by simpa [LBuf.setAt] using hl, ?_, ?_, ?_⟩, by simpa [LBuf.setAt] using htight, ?_⟩, ?_, ?_⟩
+    refine ⟨m1, _, rfl, A.wf, Or.inr ⟨wi, ⟨A.inv, hi0.w, by simpa [LBuf.setAt] using hl, ?_, ?_, ?_⟩, by simpa [LBuf.setAt] using htight, ?_⟩, ?_, ?_, frame_append hws A rfl⟩
     · intro j t hj ht
       simp only [LBuf.setAt] at ht
       rw [getElem?_set_ne (by omega)] at ht
@@ -1148,7 +1198,12 @@ theorem writeByte_some (m0 : Mem) (l0 : LBuf) (wi : Nat) (b : Nat) (hw0 : m0.WF)
     have hns1 : ns1.ri < ns1.wi := by
       have := (hfresh (wi + 1) ns (by omega) hns).1
       rw [B.ri, B.wi', hk2]; omega
-    refine ⟨m3, _, rfl, B.wf, Or.inr ⟨wi + 1, ⟨B.inv, rfl, by simpa [LBuf.setAt] using hlen2, ?_, ?_, ?_⟩, by simp only [LBuf.setAt, length_set]; rw [hsl2, length_append]; omega, ?_⟩, ?_, ?_⟩
+    have hfrA : Frame m0 l0 m1 l0 :=
+      ⟨fun p h1 _ => A.frame p (fun e => h1 (mem_filterMap.mpr ⟨ws, mem_of_getElem? hws, e⟩)), fun i hi => Or.inl hi,
+       fun i hi => by rw [A.free] at hi; exact hi⟩
+    have hfrB : Frame m2 l2 m3 (l2.setAt (wi + 1) ns1) := frame_append hns B rfl
+    refine ⟨m3, _, rfl, B.wf, Or.inr ⟨wi + 1, ⟨B.inv, rfl, by simpa [LBuf.setAt] using hlen2, ?_, ?_, ?_⟩, by simp only [LBuf.setAt, length_set]; rw [hsl2, length_append]; omega, ?_⟩, ?_, ?_,
+      (hfrA.trans (frame_lalloc a)).trans (frame_congr hfrB rfl rfl)⟩
     · intro j t hj ht
       simp only [LBuf.setAt] at ht
       rw [getElem?_set_ne (by omega)] at ht
@@ -1192,15 +1247,15 @@ theorem writeByte_some (m0 : Mem) (l0 : LBuf) (wi : Nat) (b : Nat) (hw0 : m0.WF)
 
 theorem writeByte_spec (m : Mem) (l : LBuf) (b : Nat) (hw : m.WF) (hb : WBuf m l) :
     ∃ m' l', l.writeByte m b = some (m', l') ∧ m'.WF ∧ WBuf m' l' ∧
-      content m' l'.sl = content m l.sl ++ [b] ∧ l'.len = l.len + 1 := by
+      content m' l'.sl = content m l.sl ++ [b] ∧ l'.len = l.len + 1 ∧ Frame m l m' l' := by
   rcases hb with ⟨hwn, hsl⟩ | ⟨wi, hi, htight, _⟩
-  · obtain ⟨m1, l1, e, hw1, hne1, hinv, hc, hlen, _, _, hone⟩ := first_alloc m l 1 hw (by omega) hsl
+  · obtain ⟨m1, l1, e, hw1, hne1, hinv, hc, hlen, _, _, hone, hfr1⟩ := first_alloc m l 1 hw (by omega) hsl
     have hemp : l1.sl.isEmpty = false := by
       cases h : l1.sl with
       | nil => exact absurd h hne1
       | cons a r => rfl
-    obtain ⟨m', l', e', hw', hb', hc', hlen'⟩ := writeByte_some m1 { l1 with w := some 0 } 0 b hw1 hinv (by simp only; rw [hone rfl])
-    refine ⟨m', l', ?_, hw', hb', ?_, ?_⟩
+    obtain ⟨m', l', e', hw', hb', hc', hlen', hfr'⟩ := writeByte_some m1 { l1 with w := some 0 } 0 b hw1 hinv (by simp only; rw [hone rfl])
+    refine ⟨m', l', ?_, hw', hb', ?_, ?_, hfr1.trans (frame_congr hfr' rfl rfl)⟩
     · rw [← e']
       unfold LBuf.writeByte
       rw [hwn]
